@@ -98,6 +98,10 @@ def run(chk, facts, tier):
             il = [x for x in ret_value(r[0]).walk() if x.k == 'InitListExpr' and len(x.c) == 3] if len(r) == 1 and ret_value(r[0]) is not None else []
             chk.require(bool(il), nm + ': return {{ io, oob, auth }} not recognised')
             if il:
+                e0 = strip_casts(il[0].c[0])
+                ok0 = e0.is_call('get_io_capabilities') and not e0.args()
+                chk.instance('io-capability-map', fn, '%s()[0] = io_device_t::get_io_capabilities()' % nm, ok0,
+                             '' if ok0 else 'the IO capability written to the Pairing Response is %s, not the configured capability the method selection uses: the central selects from another row/column of the mapping table than the peripheral' % e0.text()[:60], key='advertised by ' + nm)
                 e = strip_casts(il[0].c[1])
                 caps_flag[nm] = 'has_oob' if (e.k == 'ConditionalOperator' and strip_casts(e.c[0]).is_call('has_oob_data_for_remote_device') and cval(e.c[1]) == 1 and cval(e.c[2]) == 0) else ('const %s' % e.v if e.v is not None else e.text()[:30])
     for fn in handlers:
